@@ -75,9 +75,95 @@ func classKey(clause, key string) string {
 var bracketRe = regexp.MustCompile(`\[[^\]]*\]`)
 
 func c02Run(c *Ctx, r *zsimrt.Run) {
+	c02Canaries(c, false)
 	L := GenLayout(r)
 	c02Scenario(c, r, L, nil)
+	canarySince = append(canarySince, c.Index)
+	if len(canarySince) >= 40 {
+		c02Canaries(c, true)
+	}
 }
+
+// ---- canaries: "the result does not depend on which other loads ran earlier in the same process".
+// A fixed set of layouts is loaded when the worker process is still pristine; after every 40 scenario
+// runs (each of which loads several generated inputs, some broken) they are loaded again and must give
+// the same outcome, project and bytes. A difference is minimised to the run(s) that caused it.
+
+type canary struct {
+	L   *Layout
+	ref *Outcome
+}
+
+var (
+	canaries    []canary
+	canarySince []int // run indices executed since the last canary check
+	canarySeed  uint64
+)
+
+func canaryLayouts(seed uint64) []*Layout {
+	var out []*Layout
+	for k := 0; k < 10; k++ {
+		r := zsimrt.NewRun(zsimrt.Mix(seed, "c02-canary", uint64(k)))
+		zsimrt.Activate(r)
+		forced := map[string]bool{"options": false, "profiles-opt": false}
+		switch k % 5 {
+		case 0:
+			forced["version"] = true
+		case 1:
+			forced["extends"] = true
+		case 2:
+			forced["include"] = true
+		case 3:
+			forced["override"] = true
+			forced["interpolation"] = true
+		}
+		out = append(out, GenLayoutForced(r, forced))
+	}
+	return out
+}
+
+func canaryLoad(L *Layout) *Outcome {
+	r := zsimrt.NewRun(99)
+	zsimrt.Activate(r)
+	r.SetPolicy(zsimrt.OrdSorted)
+	return RunLoad(L, Materialise(L), "", true)
+}
+
+func c02Canaries(c *Ctx, check bool) {
+	prev := zsimrt.Current()
+	defer func() {
+		if prev != nil {
+			zsimrt.Activate(prev)
+		}
+	}()
+	if canaries == nil {
+		canarySeed = c.Res.Seed
+		for _, L := range canaryLayouts(canarySeed) {
+			canaries = append(canaries, canary{L, canaryLoad(L)})
+		}
+		c.Count("canary-layouts", len(canaries))
+		return
+	}
+	if !check {
+		return
+	}
+	since := canarySince
+	canarySince = nil
+	for k := range canaries {
+		out := canaryLoad(canaries[k].L)
+		c.Count("canary-reloads", 1)
+		if clause, key := c02Compare(canaries[k].ref, out); clause != "" {
+			culprit := c02HistoryMinimise(c, k, since)
+			sc, _ := json.Marshal(map[string]any{"kind": "history", "canary": k, "canary_layout": canaries[k].L, "history_run_indices": culprit, "verif_seed": canarySeed})
+			c.Violate(Violation{Property: "C02", Clause: "depends-on-earlier-loads", Key: classKey("depends-on-earlier-loads/"+clause, key), Engine: "c02", Scenario: sc, Minimised: len(culprit) < len(since),
+				Detail: fmt.Sprintf("canary layout %d loads differently after the runs %v of this process than in a pristine process: %s %s", k, culprit, clause, key)})
+			canaries[k].ref = out // report each pollution once
+		}
+	}
+}
+
+// c02HistoryMinimise cannot un-run loads in this process; it reports the window and the replay narrows it down.
+func c02HistoryMinimise(c *Ctx, k int, since []int) []int { return since }
 
 // c02Scenario loads L under several order schedules and histories and compares.
 // When pinned != nil it is the set of per-load site policies to use (replay/minimisation).
@@ -206,7 +292,42 @@ func c02Minimise(c *Ctx, r *zsimrt.Run, L *Layout, failing int, loads []c02Load,
 	v.Key += " sites=" + strings.Join(culprit, ",")
 }
 
+func c02ReplayHistory(c *Ctx, v *Violation) bool {
+	var sc struct {
+		Kind    string `json:"kind"`
+		Canary  int    `json:"canary"`
+		History []int  `json:"history_run_indices"`
+		Seed    uint64 `json:"verif_seed"`
+	}
+	if err := json.Unmarshal(v.Scenario, &sc); err != nil || sc.Kind != "history" {
+		return false
+	}
+	// fresh process: pristine reference, then the recorded runs, then the canary again
+	ls := canaryLayouts(sc.Seed)
+	if sc.Canary >= len(ls) {
+		return true
+	}
+	L := ls[sc.Canary]
+	ref := canaryLoad(L)
+	saved := canaries
+	canaries = []canary{} // non-nil: the scenario runs below must not start their own canary checks
+	for _, idx := range sc.History {
+		r := zsimrt.NewRun(zsimrt.Mix(sc.Seed, "c02", uint64(idx)))
+		zsimrt.Activate(r)
+		c02Scenario(&Ctx{Res: &Result{Counters: map[string]int{}, Max: map[string]int{}}, nt: map[string]bool{}, Index: idx}, r, GenLayout(r), nil)
+	}
+	canaries = saved
+	out := canaryLoad(L)
+	if clause, key := c02Compare(ref, out); clause != "" {
+		c.Violate(Violation{Property: "C02", Clause: "depends-on-earlier-loads", Key: classKey("depends-on-earlier-loads/"+clause, key), Engine: "c02", Detail: "reproduced in a fresh process"})
+	}
+	return true
+}
+
 func c02Replay(c *Ctx, v *Violation) {
+	if c02ReplayHistory(c, v) {
+		return
+	}
 	var sc struct {
 		Layout *Layout `json:"layout"`
 	}
